@@ -2190,6 +2190,27 @@ package p9
 //@ func (*Client).waitAndRecv
 //@   abstract
 //@   modifies implsof(message), arrays(byte), arrays(string), arrays(QID), arrays(Dirent), mapof(c.pending), type:response.r
+// handleOne: one incoming frame on the client. Its lookup callback accepts a
+// frame only for a tag that is outstanding (registered in pending by sendRecv)
+// - an Rlerror included; a delivered reply unregisters its tag; a receive error
+// clears pending (after telling every waiter).
+//@ func (*Client).handleOne$1
+//@   requires[C10,C16] held((*c).pendingMu) == 0
+//@   modifies *
+//@   ensures[C02,C10] @only-a-reply-to-an-outstanding-request-is-accepted result1 == nil ==> old(has((*c).pending, t)) && old((*c).pending[t]) != nil
+//@   ensures[C02,C10] @stray-tag-is-rejected !old(has((*c).pending, t)) || old((*c).pending[t]) == nil ==> result1 == ErrUnexpectedTag && result0 == nil
+//@   ensures[C10] @pending-untouched forall(k, tag, has((*c).pending, k) == old(has((*c).pending, k)) && (*c).pending[k] == old((*c).pending[k]))
+//@   ensures[C10,C16] held((*c).pendingMu) == 0
+//@   maypanic
+
+//@ func (*Client).handleOne
+//@   requires[C10,C16] held(c.pendingMu) == 0
+//@   modifies *
+//@   local_ensures[C10] @a-delivered-reply-unregisters-its-tag err == nil ==> !has(c.pending, t)
+//@   local_ensures[C10] @a-receive-error-clears-pending err != nil ==> forall(k, tag, !has(c.pending, k))
+//@   ensures[C10,C16] held(c.pendingMu) == 0
+//@   maypanic
+
 //@ func (*Client).sendRecv
 //@   modifies implsof(message), arrays(byte), arrays(string), arrays(QID), arrays(Dirent), arrays(error), arrays([]byte), arrays(uint64), mapof(c.pending), c.tagPool, type:response, type:buffer, type:ConnError, $lasterr, $got, $gotok, $wr, $rd, $ret.tag, $written, $ncalls, $n.*, $gm.pooled
 //@   requires[C10,C15,C16] nolocks()
